@@ -9,7 +9,8 @@ import (
 // C06 — loss response. Mode S over the reachable states of AIMD, Vegas and Gradient: at every
 // transition a drop sample must not raise the estimate (AIMD: the exact rule); at every newly
 // reached state a sustained run of drops (at each RTT of the alphabet) must reach the floor within
-// N samples, N computed from the configuration with a wide margin.
+// N samples, N computed from the configuration with a wide margin. The runs include drops that
+// carry no RTT (rtt 0), directly and as the windowed wrapper produces them from drop-only windows.
 
 func init() { props["C06"] = runC06 }
 
@@ -61,7 +62,9 @@ func c06Hooks(level int) limHooks {
 				t.Fail(cls+"/panic", "OnSample(%s) panicked: %s", s, pm)
 				return
 			}
-			if !s.drop {
+			if !s.drop || li.cfg.wrapper == "windowed" {
+				// behind the wrapper a sample is not what the algorithm receives (C09); the drop-only
+				// window runs of the per-state probe are the oracle there
 				return
 			}
 			if after > before {
@@ -79,14 +82,22 @@ func c06Hooks(level int) limHooks {
 			}
 		},
 		probe: func(fresh func() *limInst, t *mc.Tr) {
-			for _, rtt := range []int64{baseRTT / 2, baseRTT, 3 * baseRTT} {
+			rtts := []int64{0, baseRTT / 2, baseRTT, 3 * baseRTT}
+			if fresh().cfg.wrapper == "windowed" {
+				rtts = []int64{baseRTT} // every sample closes a window that holds only this drop: the delegate sees rtt 0
+			}
+			for _, rtt := range rtts {
 				li := fresh()
 				n := c06N(li)
 				start := li.top.EstimatedLimit()
 				prev := start
 				reached := false
 				for i := 0; i < n; i++ {
-					if pm := li.apply(sample{rtt: rtt, inflight: prev, drop: true}); pm != "" {
+					smp := sample{rtt: rtt, inflight: prev, drop: true}
+					if li.cfg.wrapper == "windowed" {
+						smp.inflight, smp.gap = prev+11, 2e8
+					}
+					if pm := li.apply(smp); pm != "" {
 						t.Fail(li.cfg.algo+"/panic", "drop run panicked: %s", pm)
 						return
 					}
@@ -120,5 +131,8 @@ func runC06(c *Ctx) {
 			continue
 		}
 		c.runBFS(limModel(cfg, c06Hooks(level)), mc.BFSOptions{MaxDepth: depth, DevBound: c.Pick(1, 2), MaxStates: c.Pick(300000, 3000000)})
+		// the same algorithm behind the windowed wrapper, driven with windows that hold only drops
+		cfg.wrapper = "windowed"
+		c.runBFS(limModel(cfg, c06Hooks(level)), mc.BFSOptions{MaxDepth: depth - 1, DevBound: c.Pick(1, 2), MaxStates: c.Pick(300000, 3000000)})
 	}
 }
